@@ -131,6 +131,53 @@ def run_generator(c, capture=None):
     return cases, captured.get('m')
 
 
+def plain_run(gen, c, dvd, resetup=False):
+    """consume a generator the way its API is used: doe generators are called on the design-variable table,
+    sampling generators are iterated (they were set up by their constructor; resetup: set up again first)"""
+    sampling = c['api'] == 'sampling'
+    names = [dv['name'] for dv in c['dvs']]
+    if sampling:
+        if resetup:
+            gen._setup()
+        return [flat_case(cs, True, names) for cs in gen]
+    return [flat_case(cs, False, names) for cs in gen(dvd)]
+
+
+def histories(c):
+    """seeded generators are reproducible - over histories, not only construct-then-run-once:
+    the same object consumed twice, two same-seed generators built before either is consumed, other users of
+    np.random in between.  Returns '' or a description of the first history that gave different cases."""
+    sampling = c['api'] == 'sampling'
+    dvd = dv_dict(c['dvs'], sampling)
+
+    def build():
+        return build_generator(c, sampling, dvd)
+    np.random.seed(987654321)
+    ref = plain_run(build(), c, dvd)
+    # other np.random traffic before construction
+    np.random.rand(3)
+    if plain_run(build(), c, dvd) != ref:
+        return 'a second generator with the same seed (np.random used before it was built)'
+    # two generators built before either is consumed, np.random used in between
+    g1, g2 = build(), build()
+    np.random.rand(5)
+    a = plain_run(g1, c, dvd)
+    np.random.rand(2)
+    b = plain_run(g2, c, dvd)
+    if a != ref:
+        return 'the first of two same-seed generators built before either was consumed (np.random used after construction)'
+    if b != ref:
+        return 'the second of two same-seed generators built before either was consumed'
+    # the same object consumed twice
+    g = build()
+    a = plain_run(g, c, dvd)
+    np.random.rand(1)
+    b = plain_run(g, c, dvd, resetup=True)
+    if a != ref or b != ref:
+        return 'the same generator object consumed twice'
+    return ''
+
+
 def dv_levels(c, name):
     lv = c['levels']
     if isinstance(lv, dict):
@@ -217,8 +264,9 @@ def handle(c):
                     break
         if ok and c['seed'] is not None:
             again, _ = run_generator(c, 'lhs')
-            if again != cases:
-                ok, sig, msg = False, 'not-reproducible:lhs', 'the same seed gave different cases'
+            h = histories(c) if again == cases else 'construct-and-run repeated'
+            if h:
+                ok, sig, msg = False, 'not-reproducible:lhs:' + c['api'], 'seed %r: different cases from %s' % (c['seed'], h)
     elif kind == 'uniform':
         cases, _ = run_generator(c)
         res = '__none__'
@@ -229,8 +277,9 @@ def handle(c):
             ok, sig, msg = False, 'uniform-count', '%d cases for %d samples' % (len(cases), c['samples'])
         elif c['seed'] is not None:
             again, _ = run_generator(c)
-            if again != cases:
-                ok, sig, msg = False, 'not-reproducible:uniform', 'the same seed gave different cases'
+            h = histories(c) if again == cases else 'construct-and-run repeated'
+            if h:
+                ok, sig, msg = False, 'not-reproducible:uniform:' + c['api'], 'seed %r: different cases from %s' % (c['seed'], h)
     else:
         raise ValueError(kind)
     return {'res': res, 'ok': ok, 'msg': msg, 'sig': sig, 'kind': '%s:%s:%s' % (kind, c.get('api'), c.get('gen'))}
@@ -294,6 +343,11 @@ def handle_driver(c):
     rec.seen.clear()
     p.run_driver()
     seen = list(rec.seen)
+    # the driver run a second time (np.random used in between): the same evaluations
+    np.random.rand(3)
+    rec.seen.clear()
+    p.run_driver()
+    seen_again = list(rec.seen)
     # the cases, generated once more from the driver's own design-variable table with the same seed
     gen2 = mk()
     if isinstance(gen2, list):
@@ -301,7 +355,11 @@ def handle_driver(c):
     cases = [[(n, np.atleast_1d(np.array(val, dtype=float)).ravel()) for n, val in cs]
              for cs in gen2(p.driver._designvars, p.model)]
     ok, msg, sig = True, '', ''
-    if len(seen) != len(cases):
+    if seen_again != seen:
+        ok, sig = False, 'not-reproducible:driver:' + g
+        msg = 'DOEDriver run twice: the second run evaluated the model at different points (%r ... vs %r ...)' % (
+            seen[:1], seen_again[:1])
+    elif len(seen) != len(cases):
         ok, sig, msg = False, 'driver-count', 'the model was evaluated %d times for %d generated cases' % (len(seen), len(cases))
     spec = {v['name']: v for v in c['vars']}
     for i, (cs, sn) in enumerate(zip(cases, seen)):
